@@ -85,6 +85,10 @@ def cases(rng, tier):
             for t in "01":
                 yield "pk_addr %s %s %s p2pkh" % (hx(sc), c, t), "pk-p2pkh"
         yield "pk_addr %s 1 0 p2wpkh" % hx(sec_u(x, y)), "pk-p2wpkh"
+        # several requests on ONE PublicKey object, in varying order (compressed before uncompressed and back)
+        reqs = [rng.choice(["1:0:p2pkh", "0:0:p2pkh", "1:1:p2pkh", "0:1:p2pkh", "1:0:p2wpkh", "1:1:p2wpkh",
+                            "1:0:h160", "0:0:h160"]) for _ in range(rng.randint(2, 6))]
+        yield "pk_seq %s %s" % (hx(sc), ",".join(["1:0:h160", "0:0:p2pkh"] + reqs)), "pk-object-reuse"
         yield "pk_addr %s 1 0 p2tr" % hx(sc), "pk-unsupported"
     top = 200 if tier == "quick" else 1024
     lens = list(range(0, top + 1)) + [55, 56, 63, 64, 65, 119, 120, 127, 128, 183, 184, 1000, 1023, 1024]
@@ -152,6 +156,35 @@ def oracle(line, out):
             d = indep_decode("tb" if t else "bc", s)
             if d is None or d[0] != 0 or bytes(d[1]) != h160(enc):
                 return "P2WPKH address wrong"
+        return None
+    if op == "pk_seq":
+        if v is None:
+            return "request sequence on one key object failed"
+        key = unhex(tok[1])
+        import ecdsa
+        vk = ecdsa.VerifyingKey.from_string(key, curve=ecdsa.SECP256k1)
+        outs = v.split(" ; ")
+        for r, o in zip(tok[2].split(","), outs):
+            c, t, kind = r.split(":")
+            enc = vk.to_string("compressed" if c == "1" else "uncompressed")
+            if o == "err":
+                return "request %s on a reused key object failed" % r
+            got = unstr(o)
+            if kind == "h160":
+                if got != h160(enc).hex():
+                    return "HASH160 (compressed=%s) wrong after earlier requests on the same object" % c
+            elif kind == "p2pkh":
+                try:
+                    pl = b58check_dec(got)
+                except ValueError:
+                    return "address not Base58Check"
+                if pl != bytes([0x6f if t == "1" else 0]) + h160(enc):
+                    return ("P2PKH address (compressed=%s) on a reused key object does not commit to HASH160 of that "
+                            "encoding (request sequence %s)" % (c, tok[2]))
+            else:
+                d = indep_decode("tb" if t == "1" else "bc", got)
+                if d is None or bytes(d[1]) != h160(enc):
+                    return "P2WPKH address wrong on a reused key object"
         return None
     if op == "rmd160":
         d = unhex(tok[1])
